@@ -99,6 +99,15 @@ Fixpoint points_go (rest : list string) (ss : list fsel) (chunk : list (string *
                               | Some None => POk []
                               | Some (Some id) => points_go rest' (fsub sel) chunk' (branch ++ [render_obj_point point id])
                               end
+                  | JArr (JObj o :: _) =>
+                      (* a list where the schema has an object: the entry that corresponds to the (single) starting
+                         point, i.e. the first one, gives the id; an empty list is an error since fix b2e9541
+                         (it indexed past the end before: a panic in a worker goroutine) *)
+                      match extract_id o with
+                      | None => PErr
+                      | Some None => POk []
+                      | Some (Some id) => points_go rest' (fsub sel) chunk' (branch ++ [render_list_point point 0 id])
+                      end
                   | _ => PErr                                                        (* not an object *)
                   end
                 else points_go rest' (fsub sel) chunk' (branch ++ [point])
